@@ -1996,6 +1996,73 @@ impl HashColumn {
 	}
 }
 
+/// Verification hooks (compiled only with `--cfg pdb_verif`): read-only views of the index.
+#[cfg(pdb_verif)]
+impl HashColumn {
+	/// Index bits of the current index table and of every older index table still queued
+	/// for reindexing (oldest first).
+	pub fn verif_index_tables(&self) -> (u8, Vec<u8>) {
+		let tables = self.tables.read();
+		let reindex = self.reindex.read();
+		let queued = reindex
+			.queue
+			.iter()
+			.filter_map(|e| match e {
+				ReindexEntry::Index(t) => Some(t.id.index_bits()),
+				ReindexEntry::RefCount(_) => None,
+			})
+			.collect();
+		(tables.index.id.index_bits(), queued)
+	}
+
+	/// Raw non-empty entries of one index table (`which` = 0: the current table, `n` > 0: the
+	/// n-th queued older table, oldest first): (chunk, entry, key tail stored with the
+	/// value, if the value slot is readable).
+	#[allow(clippy::type_complexity)]
+	pub fn verif_index_entries(
+		&self,
+		log: &Log,
+		which: usize,
+	) -> Result<(u8, Vec<(u64, u64, Option<[u8; crate::table::key::PARTIAL_SIZE]>)>)> {
+		let tables = self.tables.read();
+		let reindex = self.reindex.read();
+		let source = if which == 0 {
+			&tables.index
+		} else {
+			match reindex
+				.queue
+				.iter()
+				.filter_map(|e| match e {
+					ReindexEntry::Index(t) => Some(t),
+					ReindexEntry::RefCount(_) => None,
+				})
+				.nth(which - 1)
+			{
+				Some(t) => t,
+				None => return Ok((0, Vec::new())),
+			}
+		};
+		let bits = source.id.index_bits();
+		let mut out = Vec::new();
+		for c in 0..source.id.total_chunks() {
+			let entries = source.entries(c, log.overlays())?;
+			for entry in entries.iter() {
+				if entry.is_empty() {
+					continue
+				}
+				let address = entry.address(bits);
+				let tail = tables.value[address.size_tier() as usize]
+					.get_with_meta(address.offset(), log.overlays())
+					.ok()
+					.flatten()
+					.map(|(_, _, pk, _)| pk);
+				out.push((c, entry.as_u64(), tail));
+			}
+		}
+		Ok((bits, out))
+	}
+}
+
 impl Column {
 	pub fn write_existing_value_plan<K, V: AsRef<[u8]>>(
 		key: &TableKey,
